@@ -1,5 +1,7 @@
 """C09 - shapes do not depend on statement order or blank-node labels."""
 from checks import stage_check, step_check
+from harness import nt, ttl
+from harness.common import load_findings
 
 
 def _sizes(tier, k):
@@ -11,6 +13,11 @@ def _sizes(tier, k):
 def main(tier, t0):
     tasks = stage_check.tasks_for("C09", tier, scenario="permuted", sizes=_sizes)
     tasks += step_check.tasks("C09", tier)
+    # (c) blank-node labels through the real readers: for every label (symbolic characters, dots included) the reader yields the blank node with exactly that label
+    fnt = [f for f in load_findings("C06") if f.get("family") == "nt"]
+    fttl = [f for f in load_findings("C07") if f.get("family") == "ttl"]
+    tasks += [("harness.nt", "run_obligation", "nt-labels/" + n, dict(spec=s_, findings=fnt)) for n, s_ in nt.skeletons(tier) if n.startswith("nodes/") and "bnode" in n and n.endswith("/sp_dot")]
+    tasks += [("harness.ttl", "run_obligation", "ttl-labels/" + n, dict(spec=s_, findings=fttl)) for n, s_ in ttl.skeletons(tier) if "bnode" in n]
     sm = step_check.meta("C09")
     return stage_check.main("C09", tier, t0, tasks=tasks, extra_meta=dict(functions_encoded=sm["functions_encoded"], bounds=sm["bounds"], assumptions=sm["assumptions"]),
                             explanation="(b) the same row structure presented in two statement orders (rows, classes and outgoing triples reversed - every insertion order of classes, properties, "
